@@ -62,8 +62,9 @@ Judge(b, e) ==
       good == \/ p = "out-of-scope"
               \/ /\ p = e.res
                  /\ (e.res = "ok" => e.verify = "ok")
-  IN IF good THEN PrintT(<<"VERDICT", l, p>>)
-     ELSE PrintT(<<"MISMATCH", l, p, e.res, e.verify>>)
+  \* one string per line: TLC wraps long tuples over several output lines
+  IN IF good THEN PrintT("VERDICT|" \o ToString(l) \o "|" \o p)
+     ELSE PrintT("MISMATCH|" \o ToString(l) \o "|" \o p \o "|" \o e.res \o "|" \o e.verify)
 
 Init == l = 1 /\ base = [ev |-> "none"]
 Next == /\ l <= Len(Rec)
